@@ -230,7 +230,12 @@ def run_scenario(sc, observe="all"):
                         elif a[0] == "txn_end":
                             txn.__exit__(None, None, None); txn = None; res = "ok"
                         elif a[0] == "raise":
-                            raise ValueError("scripted error")
+                            e = ValueError("scripted error")
+                            if txn is not None:
+                                # the strategy wrote `with market.transaction() as t:` and its block is left by the exception
+                                t_, txn = txn, None
+                                t_.__exit__(ValueError, e, e.__traceback__)
+                            raise e
                         elif a[0] == "real_time_raise":
                             # documented wall-clock window (docs/advanced.md); the body fails
                             with fw.simulated_datetime.real_time():
